@@ -408,10 +408,7 @@ func attrsString(as []Attr) string {
 // ---------------------------------------------------------------------------
 // C12
 func oracleC12(x *Exec) []Finding {
-	p := x.Model
-	if p.Unsafe {
-		return nil
-	}
+	p := x.Model // (AllowUnsafe policies included: script, which the property names, is only ever emitted under them)
 	var fs []Finding
 	for _, t := range x.OutToks {
 		if (t.T != "start" && t.T != "self") || len(t.A) == 0 {
